@@ -107,20 +107,13 @@ Qed.
 (* defect #1: crash between the docs write and the meta write, start, further bulk, start:
    the acknowledged document 3 is then served with document 2's bytes *)
 Example C01_v0_refuted_orphan_docs :
-  exists h s p b d,
-    wf_hist wdm wdd h /\ run_v0 wdm h = Ok s /\ s_proc s = Some p /\
-    In b (acked_of h) /\ In d (b_docs b) /\
-    fetch wdd (s_disk s) p (d_id d) <> Body (d_body d).
+  wf_hist wdm wdd (w_hist 0) /\
+  In wb3 (acked_of (w_hist 0)) /\ In wd3 (b_docs wb3) /\
+  final_fetch (run_v0 wdm (w_hist 0)) (d_id wd3) = Some (Body (d_body wd2)) /\
+  d_body wd2 <> d_body wd3.
 Proof.
-  exists (w_hist 0).
-  destruct (run_v0 wdm (w_hist 0)) as [s | |] eqn:E; try (vm_compute in E; discriminate E).
-  destruct (s_proc s) as [p |] eqn:Ep.
-  - exists s, p, wb3, wd3. split; [apply w_wf |]. split; [reflexivity |]. split; [exact Ep |].
-    split; [right; left; reflexivity |]. split; [left; reflexivity |].
-    pose proof w_v0_orphan as W. unfold final_fetch in W. rewrite E, Ep in W.
-    inversion W as [W']. intro C. pose proof (eq_trans (eq_sym W') C) as X.
-    vm_compute in X. discriminate X.
-  - exfalso. pose proof w_v0_orphan as W. unfold final_fetch in W. rewrite E, Ep in W. discriminate W.
+  split; [apply w_wf |]. split; [right; left; reflexivity |]. split; [left; reflexivity |].
+  split; [exact w_v0_orphan | discriminate].
 Qed.
 
 (* defect #2: torn meta write, start, further bulk, start: the second start dies *)
